@@ -24,16 +24,29 @@ for f in sorted(glob.glob(os.path.join(V, "seeded", "*", "meta.json"))):
         for k, v in m.get("other_checks_quick", {}).items():
             if v["exit"] == 1:
                 sig = v["first_signatures"].split(";")[0]
+    fp = os.path.join(d, "meta_first_pass.json")
+    first = "caught" if caught else "-"
+    if os.path.exists(fp):
+        m1 = json.load(open(fp))
+        first = "caught" if m1.get("caught_by_quick") else "missed"
+        if m["name"] == "C04-r2s2":
+            first = "invalid (check was mid-edit)"
     rows.append((m["name"], m["property"], m["confirmed"], ", ".join(caught)
-                 or "-", sig.replace("signature=", "")[:110], notes))
+                 or "-", sig.replace("signature=", "")[:110], notes, first))
 out = ["# Independently seeded changes", "",
        "Each directory holds the change (`patch.diff`), the seeding agent's "
        "demonstration (`demo.py`: passes on the clean tree, fails with the "
        "change), its `notes.md`, my confirmation logs and `meta.json`.", "",
-       "| seed | breaks | confirmed | caught by (quick tier) | first signature |",
-       "|---|---|---|---|---|"]
+       "Round 1 = `CNN-sK`, round 2 = `CNN-r2sK`.  'first pass' is the "
+       "verdict of the property's quick check as it stood when the seed was "
+       "first confirmed (round 1 first-pass misses are listed in DESIGN.md "
+       "section 12, round 2 in ROUND2_FIRST_PASS.md); 'caught by' is the "
+       "verdict of the checks after strengthening.", "",
+       "| seed | breaks | confirmed | first pass | caught by (quick tier) | first signature |",
+       "|---|---|---|---|---|---|"]
 for r in rows:
-    out.append(f"| {r[0]} | {r[1]} | {r[2]} | {r[3]} | `{r[4]}` |")
+    fp = r[6] if "-r2" in r[0] else "see DESIGN 12"
+    out.append(f"| {r[0]} | {r[1]} | {r[2]} | {fp} | {r[3]} | `{r[4]}` |")
 open(os.path.join(V, "seeded", "SUMMARY.md"), "w").write("\n".join(out) + "\n")
 print("\n".join(out[4:]))
 print(len(rows), "seeds;", sum(1 for r in rows if r[3] != "-"), "caught")
